@@ -421,6 +421,7 @@ class Inliner:
             out = pre + _map_returns(body, mk)
         out = _forward_temps(out)
         out = _rename_result_temps(out)
+        out = _plain_names(out, local_names, h)
         for n in out:
             for x in ast.walk(n):
                 if not hasattr(x, "lineno") or True:
@@ -541,6 +542,41 @@ def _forward_temps(stmts):
     return stmts
 
 
+def _plain_names(stmts, local_names, h):
+    """give the helper's remaining locals their own names back where the caller has no variable of that name"""
+    import re
+    found = {}
+    for st in stmts:
+        for n in ast.walk(st):
+            nm = n.id if isinstance(n, ast.Name) else (n.name if isinstance(n, ast.ExceptHandler) and n.name else None)
+            if nm:
+                m = re.match(r"^_inl\d+_(.+)$", nm)
+                if m:
+                    found[nm] = m.group(1)
+    ren = {}
+    for tmp, plain in sorted(found.items()):
+        if plain in local_names or plain in ren.values() or plain in h.free or plain.startswith("_inl"):
+            continue
+        ren[tmp] = plain
+        local_names.add(plain)
+    if not ren:
+        return stmts
+
+    class R(ast.NodeTransformer):
+        def visit_Name(self, n):
+            if n.id in ren:
+                return ast.copy_location(ast.Name(id=ren[n.id], ctx=n.ctx), n)
+            return n
+
+        def visit_ExceptHandler(self, n):
+            self.generic_visit(n)
+            if n.name in ren:
+                n.name = ren[n.name]
+            return n
+
+    return [R().visit(st) for st in stmts]
+
+
 def _flatten(stmts, in_handler_of=None, acc=None):
     """statements in evaluation-textual order with the Try whose handler they sit in (or None)"""
     acc = acc if acc is not None else []
@@ -570,6 +606,28 @@ def _rename_result_temps(stmts):
         loads = [(st, n) for st, _h in flat for n in _own_exprs(st) if isinstance(n, ast.Name) and n.id == t and isinstance(n.ctx, ast.Load)]
         if not loads:
             continue
+        # case A: the temporary is y's slot: initialised by `t = y`, copied back by `y = t`, and y is not otherwise touched inside the expansion
+        first = defs[0]
+        if isinstance(first.value, ast.Name) and not first.value.id.startswith("_inl") and flat and flat[[x[0] for x in flat].index(first)][1] is None:
+            y = first.value.id
+            backs = [st for st, _h in flat if isinstance(st, ast.Assign) and len(st.targets) == 1 and isinstance(st.targets[0], ast.Name)
+                     and st.targets[0].id == y and isinstance(st.value, ast.Name) and st.value.id == t]
+            other = False
+            for st, _h in flat:
+                if st is first or st in backs:
+                    continue
+                for n in _own_exprs(st):
+                    if isinstance(n, ast.Name) and n.id == y:
+                        other = True
+            if backs and not other:
+                class RA(ast.NodeTransformer):
+                    def visit_Name(self, n):
+                        if n.id == t:
+                            return ast.copy_location(ast.Name(id=y, ctx=n.ctx), n)
+                        return n
+
+                stmts = _drop_self_copies([RA().visit(st) for st in stmts])
+                return _rename_result_temps(stmts)
         copies = [st for st, n in loads if isinstance(st, ast.Assign) and st.value is n and len(st.targets) == 1 and isinstance(st.targets[0], ast.Name)]
         if len(copies) != len(loads):
             continue
@@ -582,6 +640,9 @@ def _rename_result_temps(stmts):
         # other occurrences of y inside the expansion: stores only
         bad = False
         for st, _h in flat:
+            if isinstance(st, ast.Assign) and len(st.targets) == 1 and isinstance(st.targets[0], ast.Name) and st.targets[0].id == t \
+                    and isinstance(st.value, ast.Name) and st.value.id == y:
+                continue  # the temporary is initialised from y itself (a reassigned parameter): it is y's slot throughout
             for n in _own_exprs(st):
                 if isinstance(n, ast.Name) and n.id == y and not isinstance(n.ctx, ast.Store):
                     bad = True
@@ -684,9 +745,39 @@ def _map_returns(stmts, mk):
     return out
 
 
+# ------------------------------------------------------------------------------------------ loop guards
+_INV_OP = {ast.Lt: ast.GtE, ast.GtE: ast.Lt, ast.Gt: ast.LtE, ast.LtE: ast.Gt, ast.Eq: ast.NotEq, ast.NotEq: ast.Eq,
+           ast.Is: ast.IsNot, ast.IsNot: ast.Is, ast.In: ast.NotIn, ast.NotIn: ast.In}
+
+
+def negate(test):
+    if isinstance(test, ast.UnaryOp) and isinstance(test.op, ast.Not):
+        return test.operand
+    if isinstance(test, ast.Compare) and len(test.ops) == 1 and type(test.ops[0]) in _INV_OP:
+        return ast.copy_location(ast.Compare(left=test.left, ops=[_INV_OP[type(test.ops[0])]()], comparators=test.comparators), test)
+    return ast.copy_location(ast.UnaryOp(op=ast.Not(), operand=test), test)
+
+
+def normalise_loops(tree):
+    """`while True: if C: break; REST` is the same loop as `while not C: REST` (the guard is re-evaluated on every
+    iteration and on every continue in both forms).  Returns the number of loops rewritten."""
+    n = 0
+    for w in ast.walk(tree):
+        if not isinstance(w, ast.While) or w.orelse:
+            continue
+        while isinstance(w.test, ast.Constant) and w.test.value is True and len(w.body) > 1 and isinstance(w.body[0], ast.If) \
+                and not w.body[0].orelse and len(w.body[0].body) == 1 and isinstance(w.body[0].body[0], ast.Break):
+            w.test = negate(w.body[0].test)
+            w.body = w.body[1:]
+            n += 1
+    return n
+
+
 # ------------------------------------------------------------------------------------------ entry point
 def normalise_program(trees):
     """trees: path -> ast.Module (mutated in place).  Returns {path: number of inlined call sites}."""
+    for path, tree in trees.items():
+        normalise_loops(tree)
     inv = inventory()
     if not inv:
         return {}
